@@ -231,7 +231,7 @@ fn c11_scn(label: &str, mask: Option<&'static str>, defm: (bool, bool, bool, boo
     let mut s = ChatScn::new(&format!("c11-{}", label), cfg, vec![part(0, "ann", "op", "au"), part(1, "ben", "benny", "bu"), part(2, "wit", "witty", "wu")], 0);
     s.prelude = vec![(2, "MODE wit +w".into())];
     let mut a: Vec<&'static str> = vec![
-        "OPER op oppw", "OPER op bad", "OPER nosuch oppw", "MODE {me} +o", "MODE {me} -o", "MODE {me} +O", "MODE {me} -O", "MODE {me} +w", "MODE {peer} +o", "NICK {alt}", "KILL {peer} :c", "WALLOPS :m", "STATS u", "DIE", "SQUIT irc.irc :c", "USER root 8 * :Root", "PASS oppw",
+        "OPER op oppw", "OPER op bad", "OPER nosuch oppw", "MODE {me} +o", "MODE {me} -o", "MODE {me} +O", "MODE {me} -O", "MODE {me} +w", "MODE {peer} +o", "NICK {alt}", "KILL {peer} :c", "WALLOPS :m", "STATS u", "STATS o", "STATS m", "STATS l", "DIE", "SQUIT irc.irc :c", "USER root 8 * :Root", "PASS oppw",
     ];
     if full {
         a.extend(["MODE {me} -w", "MODE {me} +i", "MODE {me} +oO", "MODE {me} -o+o", "MODE {me} -oO", "KILL nosuch :c", "KILL {me} :c", "SQUIT other.net :c", "QUIT", "MODE {peer} -o", "DIE :msg"]);
@@ -325,7 +325,7 @@ fn c11_plan_parts(quick: bool) -> Vec<Part> {
 
 fn c19_scn(name: &str, full: bool) -> ChatScn {
     let mut s = ChatScn::new(name, oper_cfg(None), vec![part(0, "alice", "alicia", "au"), part(1, "bob", "bobby", "bu"), part(2, "carol", "caro", "cu")], 1);
-    let mut a: Vec<&'static str> = vec!["MODE {me} +i", "MODE {me} -i", "OPER op oppw", "MODE {me} -o", "MODE {me} -oO", "AWAY :t", "NICK {alt}", "JOIN #x", "PART #x", "MODE #x +s", "QUIT"];
+    let mut a: Vec<&'static str> = vec!["MODE {me} +i", "MODE {me} -i", "OPER op oppw", "MODE {me} -o", "MODE {me} -oO", "AWAY :t", "NICK {alt}", "JOIN #x", "PART #x", "MODE #x +s", "CAP END", "QUIT"];
     if full {
         a.extend(["MODE #x -s", "MODE {me} -O", "MODE {me} +o", "MODE {me} +O", "MODE {me} -Oo", "MODE {me} -o-O+i", "AWAY", "KILL {peer} :x", "JOIN #y"]);
     }
